@@ -6,11 +6,12 @@ import common
 import rfigc_util as ru
 from common import hx
 
-LEAN_MODULES = ["Pff.Props.C17", "Pff.Props.Csv"]
+LEAN_MODULES = ["Pff.Props.C17", "Pff.Props.Csv", "Pff.Props.Path"]
 PROP_MODULE = "Pff.Props.C17"
 THEOREMS = ["Pff.Rfigc.C17_recover", "Pff.Rfigc.C17_complete", "Pff.Rfigc.C17_unknown_ignored",
             "Pff.Csv.C05_csv_roundtrip",
-            "Pff.Csv.C05_db_roundtrip"]
+            "Pff.Csv.C05_db_roundtrip",
+            "Pff.Path.PATH_gen_root_independent", "Pff.Path.PATH_relFS_nodup"]
 MODELLED = [("pyFileFixity/rfigc.py", "main")]
 TRUSTED_BASE = [
     "Lean 4.33.0 kernel; axioms per theorem under coverage.theorems (subset of propext, Classical.choice, Quot.sound)",
